@@ -78,7 +78,8 @@ Definition sys_read (o : os) (req : nat) : Z * Z * list Z * os :=
   let avail := (length (disk o) - pos o)%nat in
   match resps o with
   | Eintr :: r => (-1, EINTR, [], mkOs (disk o) (pos o) r (sys_err o) (LRead (pos o) req (-1) :: log o) (rderr o))
-  | Err e :: r => (-1, e, [], mkOs (disk o) (pos o) r (sys_err o) (LRead (pos o) req (-1) :: log o) true)
+  | Err e :: r => (-1, e, [], mkOs (disk o) (pos o) r (sys_err o) (LRead (pos o) req (-1) :: log o)
+                             (if e =? EINTR then rderr o else true))
   | rs => let m := Nat.min (match rs with Ok n :: _ => clamp n req | _ => req end) avail in
           (Z.of_nat m, 0, firstn m (skipn (pos o) (disk o)),
            mkOs (disk o) (pos o + m)%nat (tl rs) (sys_err o) (LRead (pos o) req (Z.of_nat m) :: log o) (rderr o))
